@@ -23,7 +23,7 @@ type monitor struct {
 	rootNone bool
 
 	// observations
-	texts   []string             // text of every TextBox in tree order
+	texts   []string            // text of every TextBox in tree order
 	topmost map[string][]bo.Box // "<id>" / "<id>::before" / "<id>::marker" -> boxes whose parent box belongs to another element/pseudo
 	nBoxes  int
 }
